@@ -127,8 +127,8 @@ Definition go_slice_to (s : bytes) (b : N) : option bytes :=
    overflow; longer inputs go through ParseInt(s, 10, 0), which reports a range
    error outside int64).  None = any error. *)
 Definition atoi (s : bytes) : option Z :=
-  let neg := match s with 45 :: _ => true | _ => false end in
-  let digits := match s with 43 :: t => t | 45 :: t => t | _ => s end in
+  let neg := match s with c :: _ => c =? 45 | [] => false end in                       (* s[0] == '-' *)
+  let digits := match s with c :: t => if (c =? 43) || (c =? 45) then t else s | [] => s end in
   match digits with
   | [] => None
   | _ =>
@@ -159,8 +159,8 @@ Definition site_facility : N := 3.       (* FacilityNames[facility] *)
 Definition site_level : N := 4.          (* levelMapping[severity] *)
 Definition site_cut : N := 5.            (* remaining[:InputLogMaxMessageBytes] *)
 
-Definition starts_with_lt (s : bytes) : bool :=
-  match s with 60 :: _ => true | _ => false end.
+Definition starts_with_lt (s : bytes) : bool :=      (* remaining[0] == '<' (the length is checked before) *)
+  match s with c :: _ => c =? 60 | [] => false end.
 
 (* Parse(input): (nil | record | panic, counters afterwards).
    onMalformed = CountRecordDrop + Release, result nil. *)
